@@ -356,7 +356,17 @@ def run(ctx):
             if isinstance(c.func, ast.Attribute) and c.func.attr in ("startswith", "removeprefix") and c.args and isinstance(c.args[0], ast.Constant) and c.args[0].value in ("--", "-") \
                     and isinstance(c.func.value, ast.Name) and c.func.value.id in m_.params and q.returns(m_):
                 strippers.setdefault(c.args[0].value, name_)
-    ctx.require(set(strippers) == {"--", "-"}, "the dash-prefix strippers of AbstractOption were not found (methods testing startswith('--') / startswith('-'))")
+    # ... or by where they stand: `<param> = self.h(<param>)` in the constructor, for the parameter later handed to the long / short name validator
+    init0 = ao.methods["__init__"]
+    for n_ in walk_no_nested(init0.node):
+        if isinstance(n_, ast.Assign) and len(n_.targets) == 1 and isinstance(n_.targets[0], ast.Name) and n_.targets[0].id in init0.params and isinstance(n_.value, ast.Call) \
+                and isinstance(n_.value.func, ast.Attribute) and isinstance(n_.value.func.value, ast.Name) and n_.value.func.value.id == "self" and n_.value.func.attr in ao.methods \
+                and n_.value.args and isinstance(n_.value.args[0], ast.Name) and n_.value.args[0].id == n_.targets[0].id:
+            prm_ = n_.targets[0].id
+            for c in q.calls(init0):
+                if isinstance(c.func, ast.Attribute) and c.func.attr in ("_validate_long_name", "_validate_short_name") and c.args and isinstance(c.args[0], ast.Name) and c.args[0].id == prm_:
+                    strippers.setdefault("--" if "long" in c.func.attr else "-", n_.value.func.attr)
+    ctx.require(set(strippers) == {"--", "-"}, "the dash-prefix strippers of AbstractOption were not found (methods testing startswith('--') / startswith('-'), or normalising a constructor parameter before its validator)")
     for strip, prefix in ((strippers["--"], "--"), (strippers["-"], "-")):
         m = ao.methods.get(strip)
         if m is None:
